@@ -133,7 +133,7 @@ def run_jobs(jobs, njobs, verbose=False):
         done = []
         for pid_, (p, conn, job, deadline, retry) in list(running.items()):
             got = None
-            if conn.poll(0):
+            if conn.poll(0) or (not p.is_alive() and conn.poll(0.2)):      # (a finished child may have sent its result just now)
                 try:
                     got = conn.recv()
                 except (EOFError, OSError):
